@@ -3,6 +3,7 @@ CONSTANT AlgName = "hashaff"
 CONSTANT Sizes = {1, 2, 3}
 CONSTANT Depth = 3
 CONSTANT Scalars = {0, 1}
+CONSTANT UseJunk = TRUE
 VIEW View
 INVARIANT RefinesAll
 INVARIANT DefaultIsIdentity
